@@ -76,6 +76,25 @@ def run(ctx):
                     R.ob("C26-R1", ok, f.q + (" " + f.d["sig"] if f.q.endswith("Properties") else ""), "order:%s  <  %s" % (a[2][:60], b[2][:60]), f.site(n),
                          "less specific operand on the left, more specific on the right (right wins)" if ok else
                          "a more specific layer (%s) is on the left of a less specific one (%s): the generic/global entry overrides the mode-specific/user entry" % (a[2][:60], b[2][:60]))
+        # the same layering written as statements: `json x = A; x += B;` is A + B (the right-hand side of += wins)
+        for v in [x for x in f.walk() if x["k"] == "VarDecl" and kids(x) and "json" in f.type(x) and not f.type(x).strip().endswith("&")]:
+            adds = [c for c in f.walk() if c["k"] == "CXXOperatorCallExpr" and c.get("op") == "+=" and (callee(c) or "").startswith("occa::json::operator+=")
+                    and strip(kids(c)[1])["k"] == "DeclRefExpr" and strip(kids(c)[1]).get("d") == v["d"]]
+            if not adds:
+                continue
+            init = strip(kids(v)[0])
+            while init["k"] in ("CXXConstructExpr", "CXXBindTemporaryExpr", "MaterializeTemporaryExpr", "ImplicitCastExpr") and kids(init):
+                init = strip(kids(init)[0])
+            first = json_plus_chain(init)[-1] if init["k"] == "CXXOperatorCallExpr" and init.get("op") == "+" else init
+            seq = [operand_rank(f, first)] + [operand_rank(f, kids(c)[2]) for c in sorted(adds, key=lambda c: (c.get("line", 0), c["i"]))]
+            if any(r[0] is None for r in seq):
+                continue
+            n_chains += 1
+            for (a, b) in zip(seq, seq[1:]):
+                ok = (a[0], a[1]) <= (b[0], b[1])
+                R.ob("C26-R1", ok, f.q, "order:%s  <  += %s" % (a[2][:60], b[2][:60]), f.site(adds[0]),
+                     "less specific first, the more specific layer merged on top" if ok else
+                     "a less specific layer (%s) is merged with += on top of a more specific one (%s): the global / generic entry overrides the user's / mode-specific entry" % (b[2][:60], a[2][:60]))
     if n_chains < 6:
         raise AnalysisBroken("only %d property layering chains found (floor 6)" % n_chains)
 
